@@ -410,7 +410,7 @@ def m_bool_then(px, st, fr, ev):
 def m_try_branch(px, st, fr, ev):
     t = ev["args"][0]
     res = ev["callee"].get("res_full") or ""
-    if "Option<" in res.split(" as ")[0]:
+    if res.startswith("<std::option::Option<"):
         good, bad = "Some", "None"
     else:
         good, bad = "Ok", "Err"
